@@ -136,7 +136,7 @@ def tasks(tier):
 
 def replay(r):
     meta = r.get("meta") or {}
-    if meta.get("op") and meta.get("backend"):
+    if (meta.get("op") or meta.get("lifecycle")) and meta.get("backend"):
         from .BK_backend_ops import replay_backend_op
         return replay_backend_op(r)
     skel = meta.get("skeleton")
